@@ -80,6 +80,7 @@ def run_check(pid, tier, seed, replay=None, repeat=1):
                 m = dict(w.get('meta') or {})
                 items.append((m, c))
         else:
+            ctx.workdir = runner.tmp
             items = prop['gen'](ctx)          # list of (meta, case)
             for i, (m, c) in enumerate(items):
                 c['id'] = i
